@@ -136,6 +136,22 @@ class Prover:
         for ob in obs:
             ob.steps = []
             pending.append(ob)
+        # stage 0.5: cuts -- intermediate facts named by the spec; each is itself proved from the path condition (as a
+        # separate, counted obligation) and only then added to the hypotheses of the clause it belongs to
+        ncuts = max([len(ob.info.get('cuts', [])) for ob in pending] + [0])
+        for ci in range(ncuts):            # cuts are proved in order; cut k may use cuts 0..k-1
+            cut_obs = []
+            for ob in pending:
+                cuts = ob.info.get('cuts', [])
+                if ci < len(cuts):
+                    co = Obligation(ob.name + '/cut%d' % ci, ob.pc, cuts[ci], 'cut', ob.where, hyps=list(ob.hyps), info=dict(ob.info, cuts=[], via=None))
+                    co.parent = ob; co.steps = []
+                    cut_obs.append(co)
+            if cut_obs:
+                self.prove_all(cut_obs, inputs_of)
+                for co in cut_obs:
+                    if co.status == 'unsat': co.parent.hyps.append(co.goal)
+                self.cut_obligations = getattr(self, 'cut_obligations', []) + cut_obs
         # stage 1: abstraction proofs
         with_via = [ob for ob in pending if ob.info.get('via') is not None]
         self.via_stage(with_via, inputs_of)
@@ -168,6 +184,19 @@ class Prover:
                 if t.status == 'unsat':
                     t.ob.status = 'unsat'; t.ob.backend = t.backend; t.ob.smt2 = t.smt2
                     t.ob.steps.append(self.rec(t.ob, t))
+            pending = [ob for ob in pending if ob.status != 'unsat']
+            # equational back end: polynomial identities modulo the hypothesis equalities (sympy, exact)
+            for ob in pending:
+                if isinstance(ob.goal, QForall): continue
+                t0 = time.time()
+                try:
+                    ok = self.poly_stage(ob)
+                except Exception:
+                    ok = False
+                if ok:
+                    ob.status = 'unsat'; ob.backend = 'sympy-1.14(groebner)'
+                    r = {'obligation': ob.name, 'label': 'ideal-membership', 'status': 'unsat', 'backend': ob.backend, 'time': round(time.time() - t0, 3), 'detail': ''}
+                    self.records.append(r); ob.steps.append(r)
             pending = [ob for ob in pending if ob.status != 'unsat']
             # hypotheses that speak only about symbols of the goal (sign facts, ranges): small non-linear problems
             tasks = []
@@ -262,6 +291,36 @@ class Prover:
             ob.time = sum(s['time'] for s in ob.steps)
             ob.detail = '; '.join('%s=%s(%s %.2fs)' % (s['label'], s['status'], s['backend'], s['time']) for s in ob.steps[-6:])
         return obs
+
+    def poly_stage(self, ob):
+        import polyprove
+        hy, gl = smt.expand(ob, relevant=True)
+        conds = []; seen = set()
+
+        def walk(x):
+            if x.get_id() in seen: return
+            seen.add(x.get_id())
+            if z3.is_app(x) and x.decl().kind() == z3.Z3_OP_ITE and not z3.is_bool(x):
+                c = x.arg(0)
+                if all(not c.eq(d) for d in conds): conds.append(c)
+            for ch in x.children(): walk(ch)
+        walk(gl)
+        if len(conds) > 3: return False
+        import itertools
+        for vals in itertools.product([True, False], repeat=len(conds)):
+            sub = [(c, z3.BoolVal(v)) for c, v in zip(conds, vals)]
+            lits = [c if v else z3.Not(c) for c, v in zip(conds, vals)]
+            g2 = z3.simplify(z3.substitute(gl, *sub)) if sub else gl
+            if z3.is_true(g2): continue
+            hy2 = [z3.simplify(z3.substitute(h, *sub)) if sub else h for h in hy] + lits
+            if any(z3.is_false(h) for h in hy2): continue
+            if polyprove.prove_equalities(hy2, g2, budget=15): continue
+            # the case may be infeasible
+            s = z3.Solver(); s.set('timeout', 2000)
+            for h in hy2: s.add(h)
+            if s.check() == z3.unsat: continue
+            return False
+        return True
 
     def model_then_eval(self, ob, ins, tries=6):
         t0 = time.time()
